@@ -528,7 +528,7 @@ func templateFuncs(p *Prog, pkgSuffix, varName string) map[string]*ssa.Function 
 }
 
 // isShellSingleQuoter: f(s string) string returns "'" + E(s) + "'" on every
-// path, where E replaces every ' by '\'' and nothing else.
+// path, where E replaces every ' by '\” and nothing else.
 func isShellSingleQuoter(p *Prog, f *ssa.Function) bool {
 	if 1 != len(f.Params) || 1 != f.Signature.Results().Len() {
 		return false
